@@ -5,6 +5,7 @@ hubprops.PLAN["C05"] = [
     {"fam": "repo-tests", "scen": "repo-tests", "num_q": 0, "num_t": 0},
     {"fam": "Routing", "num_q": 50, "num_t": 600, "depth": 80},
     {"fam": "Failures", "num_q": 60, "num_t": 600, "depth": 80},
+    {"fam": "drops-with-logging", "scen": scenarios.drops_with_logging, "num_q": 0, "num_t": 0, "prof_q": 3, "prof_t": 8, "log_level": 20},
     {"fam": "death-during-manager-msg", "scen": scenarios.death_during_manager_msg, "num_q": 0, "num_t": 0, "prof_q": 3, "prof_t": 8},
 ]
 
